@@ -396,15 +396,20 @@ RebalanceAmount(C, st, s, w, c, base) ==
 \* the verdict on the rebalanced child itself speaks about the *amount* the
 \* rebalance chose (C06), not about the sizing rule (C05, which is judged on
 \* direct allocations and on push-downs)
-Relabel(r0, r1, c) ==
+\* (and when the child is a sub-strategy, how the amount is spread over the securities
+\* below it - in proportion to their current weights, shorts included - is C06 as well)
+Relabel(C, r0, r1, c) ==
   [r1 EXCEPT !.chk = [i \in 1..Len(@) |->
       IF i > Len(r0.chk) /\ @[i][1] = "C05.sizing" /\ @[i][3] = c
-      THEN <<"C06.rebalance", @[i][2], @[i][3], @[i][4], @[i][5], @[i][6], @[i][7]>> ELSE @[i]]]
+      THEN <<"C06.rebalance", @[i][2], @[i][3], @[i][4], @[i][5], @[i][6], @[i][7]>>
+      ELSE IF i > Len(r0.chk) /\ @[i][1] = "C05.sizing" /\ IsStrat(C, c) /\ InSubtree(C, @[i][3], c)
+      THEN <<"C06.pushdown", @[i][2], @[i][3], @[i][4], @[i][5], @[i][6], @[i][7]>>
+      ELSE @[i]]]
 RebalanceOp(C, r, s, w, c, base, upd) ==
   IF IsZero(w) THEN CloseOp(C, r, s, c, upd) ELSE
   LET amt == RebalanceAmount(C, r.st, s, w, c, base)
   IN  IF C.fi[s] /\ C.fi[c] THEN Finish(C, TransactNode(C, r, c, amt, NaN), upd)
-      ELSE Finish(C, Relabel(r, AllocNode(C, r, c, amt, TRUE), c), upd)
+      ELSE Finish(C, Relabel(C, r, AllocNode(C, r, c, amt, TRUE), c), upd)
 
 (***************************************************************************)
 (* C10 - the enumerated ill-formed situations, as predicates on (state,    *)
